@@ -1,4 +1,5 @@
 //! axv — conformance harness binding the TLA+ specification in /verif/spec to the real `ax` code.
+mod bytes;
 mod insn;
 mod interp;
 mod native;
@@ -35,6 +36,19 @@ fn main() {
             let seed: u64 = args.get(2).and_then(|s| s.parse().ok()).unwrap_or(1);
             let v = insn::probe_forms(seed);
             std::fs::write(args.get(3).map(|s| s.as_str()).unwrap_or("forms.json"), serde_json::to_string_pretty(&v).unwrap()).unwrap();
+        }
+        "bytes" => {
+            // axv bytes <classes.ndjson> <seed> <per_class> <uniform> <mutated> <forms.json> <out> [--skip N]
+            if args.len() < 9 {
+                usage();
+            }
+            let skip = if args.len() >= 11 && args[9] == "--skip" { args[10].parse().unwrap_or(0) } else { 0 };
+            interp::start_watchdog(5);
+            if let Err(e) = bytes::run(&args[2], args[3].parse().unwrap_or(1), args[4].parse().unwrap_or(1), args[5].parse().unwrap_or(0),
+                                       args[6].parse().unwrap_or(0), &args[7], &args[8], skip) {
+                eprintln!("axv: io error: {e}");
+                std::process::exit(2);
+            }
         }
         "candidates" => {
             for c in insn::candidate_codes() {
